@@ -290,7 +290,9 @@ void h_run(Ctx &c)
 	s.msg_len = (unsigned)c.param("msg_len", 4);
 	unsigned precycle = fixed ? (unsigned)c.param("precycle", 0) : t.choose(2 * s.depth + 1);
 	int budget = (int)c.param("preempt", -1);
-	int every = (int)c.param("every_access", 0);
+	int every = (int)c.param("every_access", fixed ? 0 : -1);
+	if (every < 0)
+		every = t.weighted({ 2, 1 }) == 1; // every-access granularity: pre-empt / interrupt between plain accesses too
 	int spurious = (int)c.param("spurious", fixed ? 0 : 1);
 	s.busy.assign(s.depth, -1);
 	s.msgs.reserve(512); // references are held across scheduling points: never reallocate
